@@ -65,7 +65,7 @@ func runLimits(c *mc.Ctx) {
 					depth = lim.resumes + 1
 					evs = []string{"msg:a", "msg:zz"}
 				}
-				cfg := sm.Cfg{Depth: depth, Events: evs, Regimes: []bool{true}, ChoiceBound: 0}
+				cfg := sm.Cfg{Ctx: c, Depth: depth, Events: evs, Regimes: []bool{true}, ChoiceBound: 0}
 				cfg.Visit = func(t *sm.Trans) bool { return visitLimits(c, t, &loose, lim) }
 				st := sm.Search(root, cfg)
 				c.Inc("roots")
@@ -525,7 +525,19 @@ func init() {
 		Assumptions: []string{"negative option values are outside the configuration domain", "quick tier varies one size-limit family at a time plus the all-equal and all-small corners; thorough takes the full product"},
 		Run:         run,
 		Replay:      replayFn,
-		Budget:      map[string]time.Duration{"quick": 8 * time.Minute, "thorough": 30 * time.Minute},
+		Single:      sm.Single,
+		HangLimit:   15 * time.Second,
+		SingleLimit: 30 * time.Second,
+		MaxBadCases: 3,
+		MemLimitKB:  8 << 20,
+		Classify: func(desc, output string, hang bool) (string, string) {
+			text, kinds := sm.DescribeRisky(desc)
+			if hang {
+				return "hang:engine-call-does-not-return:node-kinds=" + kinds, "an engine call did not return within the single-case limit (the search of this root alone does not finish): " + text
+			}
+			return "crash:engine-call-kills-the-host:node-kinds=" + kinds, "an engine call crashed the host process (e.g. unbounded memory growth): " + text
+		},
+		Budget: map[string]time.Duration{"quick": 8 * time.Minute, "thorough": 30 * time.Minute},
 		Guards: func(r *mc.Result, tier string) []string {
 			var f []string
 			for _, fact := range []string{"step_limit_reached", "resume_limit_reached", "msg_created", "msg_text_cut_at_limit", "name_changed", "field_changed", "result_changed"} {
